@@ -22,13 +22,16 @@ import (
 type Shape struct {
 	Name string
 	KV   [][2]int // key length, value length per record
+	DT   []int64  // time of record i relative to 1s (default: i/2, non-decreasing)
 }
 
 var Shapes07 = []Shape{
-	{"1rec", [][2]int{{1, 3}}},
-	{"2rec", [][2]int{{0, 0}, {1, 1}}},
-	{"3rec", [][2]int{{3, 40}, {0, 1}, {40, 0}}},
-	{"4rec", [][2]int{{1, 1}, {1, 1}, {1, 1}, {1, 1}}},
+	{"1rec", [][2]int{{1, 3}}, nil},
+	{"2rec", [][2]int{{0, 0}, {1, 1}}, nil},
+	{"3rec", [][2]int{{3, 40}, {0, 1}, {40, 0}}, nil},
+	{"4rec", [][2]int{{1, 1}, {1, 1}, {1, 1}, {1, 1}}, nil},
+	// times that drop and partly rise again: the index timestamp is a running maximum
+	{"3rec-nonmonotone", [][2]int{{1, 2}, {2, 1}, {1, 1}}, []int64{10, 5, 7}},
 }
 
 type Layout struct{ Times, Keys bool }
@@ -87,7 +90,11 @@ func BuildHead(dir string, sh Shape, l Layout, ver int) error {
 	}
 	var msgs []klevdb.Message
 	for i, kv := range sh.KV {
-		msgs = append(msgs, klevdb.Message{Time: time.UnixMicro(int64(1_000_000 + i/2)).UTC(), Key: pat(kv[0], i+1), Value: pat(kv[1], i+7)})
+		dt := int64(i / 2)
+		if sh.DT != nil {
+			dt = sh.DT[i]
+		}
+		msgs = append(msgs, klevdb.Message{Time: time.UnixMicro(1_000_000 + dt).UTC(), Key: pat(kv[0], i+1), Value: pat(kv[1], i+7)})
 	}
 	if _, err := lg.Publish(msgs); err != nil {
 		return err
